@@ -435,6 +435,8 @@ var Fixed = []Source{
 	{Gen: "fixed", Src: "function a() { b = 1 }\nfunction b() { a = 1 }\n"},
 	{Gen: "fixed", Src: "BEGIN { x = 1; x[1] = 2 }\nEND { y[1]; y = 2 }\n"},
 	{Gen: "fixed", Src: "function f(a, a) { }\nfunction g(NR) { }\n"},
+	{Gen: "fixed", Src: "BEGIN { if (\"/usr/bin\" ~ /^\\/usr\\/bin/) print \"y\"; x = \"a/b\"; gsub(/\\//, \"-\", x); print x }\n"},
+	{Gen: "fixed", Src: "$0 ~ /a\\\nb/ { n++ }\n/=\\/=/ { m /= 2 }\nEND { print n, m }\n"},
 	{Gen: "fixed", Src: "BEGIN {\n                x = (1, 2)\n  y = (3, 4)\n}\nEND {\n z = (5, 6)\n}\n"},
 	{Gen: "fixed", Src: "function f(p) {\n\t\t\treturn (p, 1)\n}\n(NR, 2) { print }\n        (NR, 3)\n"},
 	{Gen: "fixed", Src: "BEGIN { print length(u), length(v); v[1] }\nfunction h(w) { return length(w) }\nEND { h(q); h(r); r[1] }\n"},
